@@ -185,7 +185,7 @@ def art(rng, run):
         sizes += [rng.randint(0, 40)]
     pic = {"embedded": rng.choice(sizes), "file": rng.choice(sizes), "limit": limit,
            "mime": list(rng.choice([b"image/jpeg", b"image/png", b"x y"])) if rng.random() < 0.6 else None,
-           "embedded_ack": rng.choice([0, 0, 0, 0, 5, 5, 50, 2, 4]), "file_ack": rng.choice([0, 0, 0, 0, 50, 5, 2]), "vary": rng.random() < 0.5}
+           "embedded_ack": rng.choice([0, 0, 0, 0, 5, 5, 50, 2, 4]), "file_ack": rng.choice([0, 0, 0, 0, 50, 5, 2]), "vary": rng.random() < 0.5, "ackp": rng.random() < 0.5}
     cfg = {"callers": nc, "split_seed": rng.getrandbits(48) | 1, "pic": pic}
     # a second picture (URIs ending in _alt.flac), small, differing from the first in which source has data: several album art
     # loads on ONE connection, in sequence and from different callers, must each be answered from their own URI's picture
@@ -194,7 +194,7 @@ def art(rng, run):
         small = [-1, -1, 0, 1, limit, limit + 1, 2 * limit + 1] if limit < 64 else [-1, -1, 0, 1, 100, 4097]
         cfg["pic2"] = {"embedded": rng.choice(small), "file": rng.choice(small), "limit": limit,
                        "mime": list(rng.choice([b"image/gif", b"image/png"])) if rng.random() < 0.6 else None,
-                       "embedded_ack": rng.choice([0, 0, 0, 5, 50]), "file_ack": rng.choice([0, 0, 0, 50]), "vary": pic["vary"]}
+                       "embedded_ack": rng.choice([0, 0, 0, 5, 50]), "file_ack": rng.choice([0, 0, 0, 50]), "vary": pic["vary"], "ackp": rng.random() < 0.5}
     if rng.random() < 0.2:
         cfg["max_read"] = rng.choice([1, 5, 100, 4096])
     batches = []
